@@ -210,6 +210,9 @@ def judge_resolve(v, ntrees, seed):
                 r = rng.random()
                 comps.append(rng.choice(NAMES) if r < 0.35 else rng.choice(["*", "a*", "?", "a?", "*b*", "x1*", "[ab]*", "??", "*.*", "cg*", ".*"]))
             pat = "/".join(comps)
+            if rng.random() < 0.12:
+                # alternatives; overlapping ones must still yield every directory once
+                pat = rng.choice(["{a,ab}", "{a,a*}", "a{,b}", "{x1,cg}*", "{a,b}/{a,*}", "{*,a}", "x1{,0}"]) + ("/" + comps[-1] if len(comps) > 1 and rng.random() < 0.5 else "")
             if rng.random() < 0.15:
                 pat = "/" + pat + "//"
             if rng.random() < 0.05:
@@ -245,8 +248,15 @@ def judge_resolve(v, ntrees, seed):
             v.count("resolve_other_root_spelling")
         if set(root.rsplit("/", 1)[1]) & set("*?["):
             v.count("resolve_root_name_with_glob_characters")
+        if "{" in pat:
+            v.count("resolve_brace_patterns")
         if got != sorted(want):
-            v.bad("resolve-wildcard", "" if q["fs"] == root else "root-spelling", "fs %r pattern %r: resolved %s; matching directories %s (all dirs %s)" % (
+            kind = []
+            if "{" in pat:
+                kind.append("alternatives-resolved-twice" if sorted(set(got)) == sorted(want) else "alternatives")
+            if q["fs"] != root:
+                kind.append("root-spelling")
+            v.bad("resolve-wildcard", "+".join(kind), "fs %r pattern %r: resolved %s; matching directories %s (all dirs %s)" % (
                 q["fs"], q["pattern"], a["r"], sorted(x[len(root):] for x in want), sorted(dirs)))
     shutil.rmtree(base, ignore_errors=True)
     v.count("resolve_queries", n)
